@@ -749,7 +749,16 @@ func applyEdit2(r *Rand, doc M, kind int, anyOp func() (string, string, M), plai
 			}
 			switch r.Intn(3) {
 			case 0:
-				d["properties"].(M)["sib"+n] = ref
+				// as a property of ANOTHER definition where there is one: a property referring to its own definition makes the
+				// document circular, and circular documents with defaults / examples fall under known finding #10
+				host := d
+				for _, o := range sortedKeys(defs) {
+					if od, ok := defs[o].(M); ok && o != n && od["properties"] != nil && od["allOf"] == nil && r.Chance(500) {
+						host = od
+						break
+					}
+				}
+				host["properties"].(M)["sib"+n] = ref
 			case 1:
 				defs["W"+n+sfx] = M{"allOf": []any{ref, M{"type": "object", "properties": M{"w": M{"type": "string"}}}}}
 			default:
